@@ -374,6 +374,9 @@ pub fn t_try_block(rng: &mut Rng, profile: &'static str, run_seed: u64, miri: bo
     let gop = prog.add_op(0, Kind::FutDesync, Disp::Detach, vec![Step::Touch, Step::Gate(g), Step::Touch]);
     t0.push(TAct::Op(gop));
     for _ in 0..rng.below(2) { let id = prog.add_op(0, Kind::Desync, Disp::None, vec![Step::Touch]); t0.push(TAct::Op(id)); }
+    // with a pool thread available, usually wait until the gated operation has actually been started (and is then suspended on
+    // its gate, occupying the object) before trying
+    if prog.pool > 0 && rng.chance(3, 4) { t0.push(TAct::WaitStart(gop)); }
     let x = prog.add_op(0, Kind::TrySync, Disp::None, vec![Step::Touch]);
     t0.push(TAct::Op(x));
     for _ in 0..rng.below(3) { let id = prog.add_op(0, Kind::TrySync, Disp::None, vec![Step::Touch]); t0.push(TAct::Op(id)); }
@@ -382,10 +385,12 @@ pub fn t_try_block(rng: &mut Rng, profile: &'static str, run_seed: u64, miri: bo
     prog.fire.push(FAct::Fire(g));
     if prog.pool > 0 || true {
         // other threads keep completing operations on the same object: the windows between "queue released" and "rescheduled"
-        for _ in 0..rng.range(1, if miri { 1 } else { 3 }) {
+        // other threads: none, only try_sync (so that the suspended operation stays the only thing queued), or a mix
+        let others = rng.below(3);
+        for _ in 0..(if others == 0 { 0 } else { rng.range(1, if miri { 1 } else { 3 }) }) {
             let mut acts = vec![];
             for _ in 0..rng.range(1, if miri { 2 } else { 4 }) {
-                let r = rng.below(3);
+                let r = if others == 1 { 2 } else { rng.below(3) };
                 let id = match r { 0 => prog.add_op(0, Kind::Sync, Disp::None, vec![Step::Touch]), 1 => prog.add_op(0, Kind::Desync, Disp::None, vec![Step::Touch]), _ => prog.add_op(0, Kind::TrySync, Disp::None, vec![Step::Touch]) };
                 acts.push(TAct::Op(id));
             }
@@ -455,6 +460,14 @@ pub fn t_pipe(rng: &mut Rng, profile: &'static str, run_seed: u64, miri: bool, t
             let read = rng.below(n_items as u64 + 1) as usize;
             if read > 0 && rng.chance(1, 2) { t0.push(TAct::Consume(0, read.min(n_items))); }
             t0.push(TAct::DropStream(0));
+        } else if n_items >= 2 && !miri && rng.chance(1, 3) {
+            // read a few outputs, then stop reading until everything has gone quiet: the producer must have moved on by then
+            let k = rng.range(1, n_items as u64 - 1) as usize;
+            let h = prog.new_hold();
+            prog.checkpoint_hold = Some(h);
+            t0.push(TAct::Consume(0, k));
+            t0.push(TAct::Checkpoint);
+            t0.push(TAct::Consume(0, if close { usize::MAX } else { n_items - k }));
         } else if close {
             // sometimes read slowly in chunks so that the producer is throttled first
             let mut left = n_items;
@@ -520,7 +533,7 @@ pub fn validate(prog: &Program) -> Result<(), String> {
                 TAct::Resume(o, _) | TAct::HandResumer(o) => { open_res.retain(|x| x != o); }
                 TAct::ReleaseMortal => { if nb_only { return Err(format!("thread {} drops its owner inside a non-blocking window", t)); } released = true; }
                 TAct::PipeCreate(_) | TAct::Consume(..) => { if nb_only { return Err("pipe act in non-blocking window".into()); } }
-                TAct::DropStream(_) | TAct::Push(_) | TAct::Attempt(..) | TAct::AttemptJoin(_) | TAct::Stash(_) | TAct::WaitStart(_) => {}
+                TAct::DropStream(_) | TAct::Push(_) | TAct::Attempt(..) | TAct::AttemptJoin(_) | TAct::Stash(_) | TAct::WaitStart(_) | TAct::Checkpoint => {}
             }
         }
         if !open_fs.is_empty() || !open_res.is_empty() { return Err(format!("thread {} ends with open future_sync/resumer", t)); }
